@@ -61,6 +61,14 @@ def run(tier, seed, replay=None):
                        ("hostilem", dict(profile="hostilem", cases=14 * k, length=150, backend="mem", seed=seed * 1000 + 2)),
                        ("multi", dict(profile="multi", cases=25 * k, length=40, backend="mem", seed=seed * 1000 + 3)),
                        ("mixed", dict(profile="mixed", cases=20 * k, length=40, backend="peb", seed=seed * 1000 + 4))]
+        import glob
+        corpus = sorted(glob.glob(os.path.join(C.VERIF, "corpus", PID, "*.script")))
+        if corpus and not replay:
+            script = os.path.join(d, "corpus.script")
+            with open(script, "w") as f:
+                for cfile in corpus:
+                    f.write(open(cfile).read() + "\n")
+            batches.insert(0, ("corpus", dict(script=script)))
         for tag, kw in batches:
             r = T.TraceRun(d, tag).run(**kw)
             if not r.ok:
